@@ -100,16 +100,33 @@ impl<T: Val, const N: usize> Val for [T; N] {
     fn gen(rng: &mut StdRng, d: u32) -> Self { std::array::from_fn(|_| T::gen(rng, d + 1)) }
     fn tree(&self) -> Value { json!({"k": "array", "i": self.iter().map(|x| x.tree()).collect::<Vec<_>>()}) }
 }
+/// Is T (an alias of) PhantomData? Members of that type are zero-sized and not part of any described value
+/// (a documented rule of the data model, C17): the oracle leaves them out wherever the library's builders do.
+pub fn is_marker_ty<T: ?Sized>() -> bool {
+    let mut n = std::any::type_name::<T>();
+    loop {
+        let m = n.trim_start_matches('&').trim_start_matches("mut ");
+        let m = ["alloc::boxed::Box<", "alloc::rc::Rc<", "alloc::sync::Arc<"].iter().fold(m, |a, p| a.strip_prefix(p).unwrap_or(a));
+        if m == n {
+            break;
+        }
+        n = m;
+    }
+    n.starts_with("core::marker::PhantomData")
+}
+fn payload<T: Val>(x: &T) -> Vec<(Option<&'static str>, Value)> {
+    if is_marker_ty::<T>() { vec![] } else { vec![(None, x.tree())] }
+}
 impl<T: Val> Val for Option<T> {
     fn gen(rng: &mut StdRng, d: u32) -> Self { if d > 3 || rng.gen_bool(0.4) { None } else { Some(T::gen(rng, d + 1)) } }
     fn tree(&self) -> Value {
-        match self { None => variant("None", vec![]), Some(x) => variant("Some", vec![(None, x.tree())]) }
+        match self { None => variant("None", vec![]), Some(x) => variant("Some", payload(x)) }
     }
 }
 impl<T: Val, E: Val> Val for Result<T, E> {
     fn gen(rng: &mut StdRng, d: u32) -> Self { if rng.gen_bool(0.5) { Ok(T::gen(rng, d + 1)) } else { Err(E::gen(rng, d + 1)) } }
     fn tree(&self) -> Value {
-        match self { Ok(x) => variant("Ok", vec![(None, x.tree())]), Err(x) => variant("Err", vec![(None, x.tree())]) }
+        match self { Ok(x) => variant("Ok", payload(x)), Err(x) => variant("Err", payload(x)) }
     }
 }
 macro_rules! transparent {
@@ -208,7 +225,7 @@ macro_rules! tuple_val {
             fn tree(&self) -> Value {
                 let ($($t,)+) = self;
                 // zero-sized PhantomData members are not part of the described value
-                let items: Vec<(bool, Value)> = vec![$( (std::any::type_name::<$t>().starts_with("core::marker::PhantomData"), $t.tree()) ),+];
+                let items: Vec<(bool, Value)> = vec![$( (is_marker_ty::<$t>(), $t.tree()) ),+];
                 let kept: Vec<Value> = items.into_iter().filter(|(ph, _)| !ph).map(|(_, t)| t).collect();
                 json!({"k": "tuple", "i": kept})
             }
